@@ -2,12 +2,13 @@
   Driver family `watch` (C08): the WATCH tracker / EXEC decision model next to its Spec.
 
   Line protocol (one answer line per request line; `now` in milliseconds on the check's clock):
-    reset <perDb 0|1> <rewatchKeeps 0|1> <watchPurges 0|1> -> ok      (forgets the table rows too)
+    reset <perDb 0|1> <rewatchKeeps 0|1> <watchPurges 0|1> <unwatchQueued 0|1> -> ok   (forgets the table rows too)
+    refused <c> <now>                                    -> err       (a command refused for its arity: nothing changes)
     fn <name> <mutates 0|1> <keyParams|.> <marked|.> <marksAll 0|1>   -> ok
          one row of the translator's table (the same rows that become `Gen.storageFns`); parameter names
          joined with `,`.  Sent by the check, so that the driver builds whatever the translator extracted.
     watch <c> <now> <key>|<key>...                       -> ok | err
-    unwatch <c> <now>                                    -> ok
+    unwatch <c> <now>                                    -> ok | queued
     multi <c> <now>                                      -> ok | err
     discard <c> <now>                                    -> ok | err
     select <c> <now> <db>                                -> ok | queued | err
@@ -88,10 +89,14 @@ def simple (st : St) (now : Nat) (ev : Ferrous.Watch.Ev) : St × String :=
 
 def handle (st : St) (ws : List String) : St × String :=
   match ws with
-  | ["reset", a, b, p] =>
-    match bool? a, bool? b, bool? p with
-    | some pd, some rk, some wp => ({ q := ⟨pd, rk, wp⟩ }, "ok")
-    | _, _, _ => (st, "bad-op")
+  | ["reset", a, b, p, u] =>
+    match bool? a, bool? b, bool? p, bool? u with
+    | some pd, some rk, some wp, some uq => ({ q := ⟨pd, rk, wp, uq⟩ }, "ok")
+    | _, _, _, _ => (st, "bad-op")
+  | ["refused", c, now] =>
+    match c.toNat?, now.toNat? with
+    | some c, some now => simple st now (.refused c)
+    | _, _ => (st, "bad-op")
   | ["fn", n, m, kps, mk, ma] =>
     match bool? m, bool? ma with
     | some mu, some al =>
